@@ -16,10 +16,15 @@ class C17(Prop):
     theorems = [
         "NV.C17.model_use_passes_stale_clause",
         "NV.C17.model_save_passes_outdated_clause",
+        "NV.C17.model_use_passes_shadow_clause",
+        "NV.C17.model_use_passes_damaged_and_foreign_clauses",
         "NV.C17.never_stale",
         "NV.C17.never_stale_transitive",
         "NV.C17.fresh_binary_used",
         "NV.C17.include_resolution_partial",
+        "NV.C17.includes_resolve_as_recorded",
+        "NV.C17.parent_include_shadow_partial",
+        "NV.C17.incOpen_spec",
         "NV.C17.saved_only_against_current_parents",
         "NV.C17.current_parents_are_saved",
         "NV.C17.swap_loop_correct",
@@ -39,6 +44,8 @@ class C17(Prop):
         "NV.C17.relocation_members_tied",
         "NV.C17.every_pointer_member_handled",
         "NV.C17.only_switch_keys_are_addresses",
+        "NV.C17.every_block_pointer_recreated",
+        "NV.C17.patch_offsets_read_unsigned",
         "NV.C17.qsort_statements_tied",
         "NV.C17.binary_file_roundtrip",
         "NV.C17.decoded_file_has_valid_checksum",
@@ -56,6 +63,7 @@ class C17(Prop):
         "NV.C17.conditional_patch_list_misses_switch",
         "NV.C17.old_saved_against_outdated_parent",
         "NV.C17.include_shadowing_not_seen",
+        "NV.C17.unsaved_parent_include_shadowing_not_seen",
     ]
     consts = [("switchCaseSize", "SWITCH_CASE_SIZE"), ("fSwitch", "F_SWITCH"), ("nameInherited", "NAME_INHERITED"),
               ("indexStartNone", "INDEX_START_NONE"), ("sizeofProgram", "sizeof(program_t)"),
@@ -84,7 +92,8 @@ class C17(Prop):
                   "binary is written only for a program whose inherited programs, at any depth, are still current in memory "
                   "(saved_only_against_current_parents); quickSort as coded permutes for every comparison function and sorts for "
                   "strict orders, so the function table and every string switch table come out in the order their searches "
-                  "assume; the in-place sort by swaps, the f_index remap and type_start follow; relocation round-trips and covers "
+                  "assume; every #include directive still resolves to the recorded file when a binary is used (includes_resolve_as_recorded); "
+                  "the in-place sort by swaps, the f_index remap and type_start follow; relocation round-trips and covers "
                   "every pointer member; the byte format round-trips (binary_file_roundtrip) and every read is length-checked.  "
                   "Equality of whole programs is by correspondence: generated programs are compiled, dumped, reloaded from the "
                   "binary and dumped again; the Lean model predicts the reloaded dump from the fresh one and the Lean oracle "
@@ -93,7 +102,7 @@ class C17(Prop):
                   "lists, statement orders and function texts; the harness (differential; only generated programs and "
                   "histories); the compiler is not modelled (its dumps are data); no judge(model trace) = [] for whole "
                   "histories - clause-level top theorems for the never-stale and outdated-parent clauses "
-                  "(model_use_passes_stale_clause, model_save_passes_outdated_clause), invariants for the others; open finding C17-include-shadowed (include search order); the "
+                  "(model_use_passes_stale_clause, model_save_passes_outdated_clause, model_use_passes_shadow_clause), invariants for the others; the "
                   "program generator is a grammar of shapes, not all LPC")
     rule = ("cases = corpus + known-finding inputs + boundary list + seeded random cases of six kinds: uqsort (the real quickSort "
             "on 0..250 elements of 4/8/10 bytes under comparison tables that are orders, preorders, constant or random), usort (random "
@@ -107,8 +116,8 @@ class C17(Prop):
             "toggled; chains with unsaved parents; every reload either in the same process or each in a fresh process; "
             "in half of the cases a reference compile of the current sources (own process, no binaries) before every reload, which the program loaded from a binary is compared with; reload after every step with permuted string addresses; every decision branch of the model is taken (histogram.decision_branches); non-trivial = trace with >= 2 lines; distinct = "
             "distinct canonical implementation trace")
-    not_covered = ["an include file shadowed by a new file earlier in the search path: open finding C17-include-shadowed "
-                   "(witness + partial theorem; replayed from the known input only, not generated)",
+    not_covered = ["open finding C17-unsaved-parent-include-shadowed: an include of a parent WITHOUT saved binary shadowed by a file older "
+                   "than the child's binary (witness, partial theorem, replay input; the newer case is proved caught)",
                    "the refusal branches of save_binary for programs / include lists above USHRT_MAX and strings of USHRT_MAX "
                    "or more (they are the hypotheses of binary_file_roundtrip; no generated program is that large)",
                    "clock granularity: an edit in the same second as a load or a save (the quantifier has distinct times)",
@@ -134,6 +143,8 @@ class C17(Prop):
                 raise X.TieBroken("load_binary:" + name, "comparison site `%s` not found in load_binary (pattern %s)" % (name, pat))
         need_lb("source", r"check_times\s*\(mtime,\s*name\)\s*<=\s*0")
         need_lb("include", r"check_times\s*\(mtime,\s*iname\)\s*<=\s*0")
+        need_lb("missing-include", r"if\s*\(iname\[0\]\s*==\s*'!'\)\s*\{[^{}]*if\s*\(check_times\s*\(mtime,\s*iname \+ 1\)\s*!=\s*-1\)\s*\{[^{}]*return OUT_OF_DATE;\s*\}\s*continue;\s*\}\s*if\s*\(check_times\s*\(mtime,\s*iname\)\s*<=\s*0\)")
+        self.tie_inc_open()
         need_lb("inherit", r"check_times\s*\(mtime,\s*buf\)\s*<=\s*0\s*\|\|\s*check_times\s*\(mtime,\s*file_name_two\)\s*==\s*0")
         need_lb("binary-path", r"if\s*\(file_name\[0\]\s*==\s*'/'\)\s*file_name\+\+;")
         need_lb("inherited-binary-path", r"if\s*\(file_name_two\[0\]\s*==\s*'/'\)\s*file_name_two\+\+;")
@@ -208,6 +219,8 @@ class C17(Prop):
                     not re.search(r"fread \(\(char \*\) &bin_%s, sizeof \(bin_%s\), 1, f\)" % (nm, nm), lb) or \
                     not re.search(r"uint%s_t bin_%s;" % (drvw if nm == "driver_id" else cfgw, nm), lb):
                 raise X.TieBroken("binaries.c:preamble", "%s is no longer written and read with its own size" % nm)
+        layout += self.gen_block_pointers(lb)
+        layout += self.gen_patch_types(src, ic)
         layout += self.gen_functions(src, sv)
         layout += self.gen_relocation(src, lb, ic)
         layout += self.gen_qsort()
@@ -219,6 +232,94 @@ class C17(Prop):
             "/-- C: check_times() answers 0 (out of date) when `st.st_mtime %s mtime` -/" % op,
             "def checkTimesStrict : Bool := %s" % ("true" if op == ">" else "false"),
         ] + layout)
+
+    def gen_block_pointers(self, lb):
+        """pointer-typed members of the structures that live INSIDE the saved program block (the elements of
+        function_table, function_offsets, function_compressed, inherit, classes, class_members) and how load_binary
+        re-creates each of them; the element type of the pointer tables strings / variable_table"""
+        ph = re.sub(r"/\*.*?\*/", "", open(os.path.join(E.REPO, "lib/lpc/program.h")).read(), flags=re.S)
+        found = []
+        for struct in ("runtime_defined_s", "runtime_inherited_s", "compressed_offset_table_s", "compiler_function_s",
+                       "class_def_s", "class_member_entry_s", "inherit_s"):
+            m = re.search(r"typedef struct %s\s*\{(.*?)\}\s*(\w+);" % struct, ph, re.S)
+            if not m:
+                raise X.TieBroken("program.h:" + struct, "structure %s not found" % struct)
+            for decl in m.group(1).split(";"):
+                decl = " ".join(l for l in decl.splitlines() if not l.strip().startswith("#")).strip()
+                mm = re.match(r"^[\w\s]+?\*+\s*(\w+)$", decl)
+                if mm:
+                    found.append((m.group(2), mm.group(1)))
+        mem = re.search(r"typedef struct program_s\s*\{(.*?)\}\s*program_t;", ph, re.S).group(1)
+        tables = re.findall(r"char\s*\*\*\s*(\w+)\s*;", mem)
+        recreated = []
+        for pat, name in ((r"p->function_table\[i\]\.name = make_shared_string \(buf\);", "compiler_function_t.name"),
+                          (r"p->inherit\[i\]\.prog = ob->prog;", "inherit_t.prog"),
+                          (r"p->strings\[i\] = make_shared_string \(buf\);", "strings[]"),
+                          (r"p->variable_table\[i\] = make_shared_string \(buf\);", "variable_table[]")):
+            if re.search(pat, lb):
+                recreated.append(name)
+
+        def strs(xs):
+            return "[" + ", ".join('"%s"' % x for x in xs) + "]"
+        return ["/-- C: pointer-typed members of the structures stored inside the program block (lib/lpc/program.h) -/",
+                "def blockStructPointers : List String := " + strs("%s.%s" % x for x in found),
+                "/-- C: the `char **` tables of program_t (every element is a pointer) -/",
+                "def blockPointerTables : List String := " + strs(t + "[]" for t in tables),
+                "/-- C: the element pointers load_binary assigns itself after reading the block -/",
+                "def blockPointersRecreated : List String := " + strs(recreated)]
+
+    def gen_patch_types(self, src, ic):
+        """the C types through which a patch offset travels: recorded by the code generator, read back by patch_out and
+        patch_in, and the types of the table bounds read from the switch instruction"""
+        out = []
+        m = re.search(r"(\w[\w ]*?)\s+sw\s*=\s*\((\w[\w ]*?)\)\s*\(addr - 2\);\s*add_to_mem_block\s*\(A_PATCH,\s*\(char \*\)\s*&sw,\s*sizeof sw\)", ic)
+        if not m:
+            raise X.TieBroken("icode.c:A_PATCH.type", "the patch entry is no longer `<type> sw = (<type>) (addr - 2)` stored with sizeof sw")
+        out += ["/-- C: type of the patch entry the code generator stores (icode.c) -/", 'def patchEntryType : String := "%s"' % m.group(1).strip()]
+        for fn, lean in (("patch_out", "patchOut"), ("patch_in", "patchIn")):
+            a = src.find("\n%s (program_t * prog, short *patches, size_t len)" % fn)
+            if a < 0:
+                raise X.TieBroken("binaries.c:%s" % fn, "`%s (program_t * prog, short *patches, size_t len)` not found" % fn)
+            body = src[a:src.find("}\t\t\t\t/* %s() */" % fn, a)]
+            mi = re.search(r"\bint i;", body)
+            mc = re.search(r"\bi\s*=\s*(\([^()]*\))?\s*patches\[--len\];", body)
+            mt = re.search(r"\b((?:unsigned\s+)?(?:short|int|long|char))\s+offset,(?:\s*start,)?\s*break_addr;", body)
+            if not mi or not mc or not mt:
+                raise X.TieBroken("binaries.c:%s.types" % fn, "the patch offset is no longer read as `i = (<cast>) patches[--len]` into an int, "
+                                  "or the table bounds are no longer `<type> offset, … break_addr`")
+            out += ["/-- C: the cast in `i = (…) patches[--len]` of %s (empty: none) -/" % fn,
+                    'def %sOffsetCast : String := "%s"' % (lean, (mc.group(1) or "").strip("()").strip()),
+                    "/-- C: type of `offset` / `break_addr` in %s -/" % fn,
+                    'def %sBoundsType : String := "%s"' % (lean, re.sub(r"\s+", " ", mt.group(1)))]
+        return out
+
+    def tie_inc_open(self):
+        """inc_open (lex.c) notes, before it returns the file found in an include directory, the candidate next to the
+        including file and the candidates of every earlier include directory; add_program_missing_file (compiler.c)
+        stores them as '!' entries of A_INCLUDES"""
+        lx = re.sub(r"/\*.*?\*/", "", open(os.path.join(E.REPO, "lib/lpc/lex.c")).read(), flags=re.S)
+        a = lx.find("static int inc_open (char *buf, const char *name) {")
+        body = re.sub(r"\s+", " ", lx[a:lx.find("#define include_error", a)]) if a >= 0 else ""
+        want = ["inc_lexically_normal (current_file, name, buf);",
+                "if (legal_path (buf) && (fd = FILE_OPEN (buf, O_RDONLY)) != -1)",
+                "first[0] = '\\0'; if (legal_path (buf)) strcpy (first, buf);",
+                "for (i = 0; i < inc_list_size; i++)",
+                "sprintf (buf, \"%s/%s\", inc_list[i], name); if ((fd = FILE_OPEN (buf, O_RDONLY)) != -1)",
+                "add_program_missing_file (first); for (j = 0; j < i; j++)",
+                "sprintf (missed, \"%s/%s\", inc_list[j], name); add_program_missing_file (missed);",
+                "return fd;"]
+        pos, at = [], 0
+        for t in want:
+            k = body.find(t, at)
+            pos.append(k)
+            at = k + 1 if k >= 0 else at
+        if -1 in pos:
+            raise X.TieBroken("lex.c:inc_open", "inc_open no longer tries the candidates / notes the missed ones in the modelled order: "
+                              "missing %s" % [t for t, k in zip(want, pos) if k < 0][:2])
+        cp = re.sub(r"\s+", "", re.sub(r"/\*.*?\*/", "", open(os.path.join(E.REPO, "lib/lpc/compiler.c")).read(), flags=re.S))
+        if "voidadd_program_missing_file(constchar*path){charentry[PATH_MAX+1];if(!mem_block[A_INCLUDES].block||!path[0]||strlen(path)>=PATH_MAX)return;" \
+           "entry[0]='!';strcpy(entry+1,path);add_to_mem_block(A_INCLUDES,entry,strlen(entry)+1);}" not in cp:
+            raise X.TieBroken("compiler.c:add_program_missing_file", "the '!' entry of the include list is no longer written as modelled")
 
     def gen_functions(self, src, sv):
         """small functions the model mirrors statement by statement: their text (comments and white space removed) must be
